@@ -60,7 +60,8 @@ end
 def packBool (v : Val) : M (List Val) :=
   match v with
   | .lc x => pure [.lc x]
-  | _ => do let c ← truthy v; pure [.int c]     -- `[int(bool(val))]`; `bool(LinCombBool)` raises
+  | .lcb x => pure [.lcb x]                     -- `isinstance(val,(LinComb,LinCombBool))`: the secret itself
+  | _ => do let c ← truthy v; pure [.int c]     -- `[int(bool(val))]`; `bool(LinCombFxp)` raises
 
 /-- `PackIntMod(mod).pack(val)` -/
 def packIntMod (m : Nat) (v : Val) : M (List Val) :=
